@@ -67,7 +67,8 @@ def fld(st, obj, name):
 
 
 def hist(st, obj, name):
-    return z3.Select(st.lists, V.Val.a(fld(st, obj, name)))
+    """(items, count) of everything appended so far to the deque in field `name`"""
+    return lib.deque_history(st, V.Val.a(fld(st, obj, name)))
 
 
 def nreads(st):
@@ -158,14 +159,15 @@ def INV_parts(eng, st, self_, as_goal=False):
     bufs = [fld(st, self_, f) for f in ("_buffer", "_line", "_col")]
 
     def elems(S, spec, pat):
+        items = S[0]
         if as_goal:
-            return z3.Implies(z3.And(ANYIDX >= 0, ANYIDX < n), S[ANYIDX] == spec(ANYIDX))
-        return forall_k(z3.Implies(z3.And(k >= 0, k < n), S[k] == spec(k)), pat(k), nth_pattern(S, k))
+            return z3.Implies(z3.And(ANYIDX >= 0, ANYIDX < n), z3.Select(items, ANYIDX) == spec(ANYIDX))
+        return forall_k(z3.Implies(z3.And(k >= 0, k < n), z3.Select(items, k) == spec(k)), pat(k), z3.Select(items, k))
 
     return [
         ("at least two characters were read, the window holds at least two, and the three deques are distinct and bounded by the window",
          z3.And(n >= 2, depth >= 2, *[lib.deque_maxlen(V.Val.a(b)) == depth for b in bufs], bufs[0] != bufs[1], bufs[0] != bufs[2], bufs[1] != bufs[2])),
-        ("every deque has one entry per character read", z3.And(z3.Length(B) == n, z3.Length(L) == n, z3.Length(C) == n)),
+        ("every deque has one entry per character read", z3.And(B[1] == n, L[1] == n, C[1] == n)),
         ("buffer entry k is character k of the text", elems(B, CH, CH)),
         ("line entry k is the line of character k", elems(L, lambda i: V.mk_int(LINE(i)), LINE)),
         ("column entry k is the column of character k", elems(C, lambda i: V.mk_int(COL(i)), COL)),
@@ -219,30 +221,38 @@ def build(active_known=frozenset()):
                       *[fld(post, a.self, f) == fld(pre, a.self, f) for f in ("_buffer", "_line", "_col", "_pushback_depth", "_stream")])
 
     c = op("peek")
+    c.modifies()
     c.raises()
     c.ensures("peek returns the character at the current position and moves nothing", lambda a: z3.And(a.result == CH(pos(a.pre.st, a.self)), keeps(a, 0), nreads(a.post.st) == nreads(a.pre.st)))
 
     for nm, fn in (("line", LINE), ("col", COL)):
         c = op(nm)
+        c.modifies()
         c.raises()
         c.ensures(f"{nm} is the {nm} of the character at the current position", lambda a, fn=fn: z3.And(a.result == V.mk_int(fn(pos(a.pre.st, a.self))), keeps(a, 0)))
 
     c = op("loc")
+    c.modifies()
     c.raises()
     c.ensures("loc is (line, column) of the character at the current position: lines are counted by LF, CRLF and lone CR alike, columns restart at 0 after each",
               lambda a: z3.And(V.is_ref(a.result), V.seq_of(V.Val.a(a.result)) == z3.Concat(z3.Unit(V.mk_int(LINE(pos(a.pre.st, a.self)))), z3.Unit(V.mk_int(COL(pos(a.pre.st, a.self))))), keeps(a, 0)))
 
     c = op("next_char")
+    c.modifies("_idx")
+    c.frame_aux = ("dqv", "dqn")  # the three deques grow; that they are the only ones touched is part of `keeps` + INV
     c.raises()
     c.ensures("next_char moves one character forward and returns the character now under the cursor",
               lambda a: z3.And(a.result == CH(pos(a.pre.st, a.self) + 1), keeps(a, 1)))
 
     c = op("advance")
+    c.modifies("_idx")
+    c.frame_aux = ("dqv", "dqn")
     c.raises()
     c.ensures("advance moves one character forward and returns the character that was under the cursor",
               lambda a: z3.And(a.result == CH(pos(a.pre.st, a.self)), keeps(a, 1)))
 
     c = op("pushback")
+    c.modifies("_idx")
     c.raises(IndexError)
     c.raises_only_if("the position before the current one has left the pushback window", (IndexError,),
                      lambda a: 1 - V.Val.i(fld(a.pre.st, a.self, "_idx")) > V.Val.i(fld(a.pre.st, a.self, "_pushback_depth")))
